@@ -22,8 +22,8 @@ RULE = ("cases = terminal states of the Numbers_MC slices (TLC) and seeded calls
         "non-trivial = the value has at least two significant digits or is rounded / carries a unit / "
         "an uncertainty / is a Roman numeral above 10")
 ASSUMPTIONS = [
-    "a float is identified with the exact decimal of its repr(); TLC allows 2 units of the 16th significant "
-    "digit for the binary representation (Decimal!BinSlack)",
+    "a float is identified with the exact decimal of its repr(); TLC allows one unit of the 15th significant "
+    "digit (DBL_DIG) for the binary representation and the formatter's float arithmetic (Decimal!BinSlack)",
     "the unit text expected after the number is the text the same unit renders to on its own "
     "(latex_of_unit / unicode_of_unit / html_of_unit / str(dimensionality)); unit rendering itself is not judged here",
     "the length of an uncertainty layout is measured in the plain 'e' notation (3.142(3)e9) also when the "
@@ -31,13 +31,9 @@ ASSUMPTIONS = [
 ]
 
 KINDS = ("latex", "unicode", "html")
+ALLK = ("latex", "unicode", "html", "plain")
 QUICK = ["small_q", "decades_q", "uncert_q", "roman"]
 THOROUGH = ["small_t", "decades_t", "uncert_t", "roman"]
-ACTIONS = {
-    "small_q": ["ChooseValue", "ChoosePrecision", "Format"],
-    "uncert_q": ["ChooseValue", "ChooseUncert", "FormatUncert"],
-    "roman": ["RomanChoose", "RomanStep", "RomanFinish"],
-}
 
 
 # ---------------------------------------------------------------- calling chempy
@@ -80,15 +76,20 @@ def call(spec):
     unit = _unit(uname) if uname else None
     ev = [{"k": "value", "x": nc.dec_of(x)}]
     lexkind = fn
-    if fn == "plain":
-        # the parameter of a printed reaction (three significant digits)
-        from chempy import Reaction
+    if fn in ("plain", "rxn-unicode"):
+        # the parameter of a printed reaction: Reaction.string (three significant digits) and
+        # Reaction.unicode (five)
+        from chempy import Reaction, Substance
         param = x * unit if unit is not None else x
         r = Reaction({"A": 1}, {"B": 1}, param, checks=())
-        s = r.string(with_param=True)
-        head = "A -> B; "
-        txt = s[len(head):] if s.startswith(head) else s
-        utext = _unit_text("plain", unit) if unit is not None else ""
+        if fn == "plain":
+            s = r.string(with_param=True)
+            utext = _unit_text("plain", unit) if unit is not None else ""
+        else:
+            s = r.unicode({"A": Substance("A"), "B": Substance("B")}, with_param=True)
+            utext = unit.dimensionality.unicode if unit is not None else ""
+            lexkind = "unicode"
+        txt = s.split("; ", 1)[1] if "; " in s else s
     elif fn == "uncert_plain":
         from chempy.printing.numbers import _float_str_w_uncert
         txt = _float_str_w_uncert(x, spec["xe"], spec["p"])
@@ -185,8 +186,10 @@ def seeded_specs(rng, n):
         unit = rng.choice(UNITS) if rng.random() < 0.3 else ""
         if u < 0.5:
             out.append({"fn": rng.choice(KINDS), "x": x, "n": rng.randint(1, 10), "unit": unit})
-        elif u < 0.6:
+        elif u < 0.57:
             out.append({"fn": "plain", "x": x, "n": 3, "unit": unit})
+        elif u < 0.6:
+            out.append({"fn": "rxn-unicode", "x": x, "n": 5, "unit": unit})
         else:
             xe = _rand_uncert(rng, x)
             if xe is None:
@@ -256,7 +259,7 @@ def _judge(ctx, specs, outs, cases=None, cfg="NumbersTrace.cfg"):
             continue
         traces.append(o["trace"])
         keep.append(j)
-    verdicts = ctx.validate_traces("NumbersTrace", cfg, traces, chunk=20000)
+    verdicts = ctx.validate_traces("NumbersTrace", cfg, traces, chunk=40000)
     for j, (v, pos, clause) in zip(keep, verdicts):
         sp, o = specs[j], outs[j]
         ctx.ran(_spec_key(sp), nontrivial=_nontrivial(sp))
@@ -270,30 +273,51 @@ def _judge(ctx, specs, outs, cases=None, cfg="NumbersTrace.cfg"):
                        "tlc_cfg": cfg})
 
 
+# classes that must be present among the cases of a slice (vacuity guard without -coverage)
+NEED = {
+    "small": ["num-fixed", "num-sci", "-carry", "-tie", "-one", "-neg"],
+    "decades": ["num-sci", "-carry", "-one"],
+    "uncert": ["unc-plain", "unc-exp", "-carry", "-ucarry", "-int"],
+    "roman": ["roman"],
+}
+
+
 def run(ctx):
     import chempy  # noqa
+    import core
+    # every action of the machine is taken (tiny configuration, -coverage on)
+    ctx.tlc("Numbers_MC", "Numbers_MC_cover.cfg", require_cases=50, timeout=600, require_actions=[
+        "GenValue", "GenUnit", "GenPrecision", "Format", "GenUncert", "FormatUncert",
+        "GenRoman", "RomanStep", "RomanFinish"])
     slices = QUICK if ctx.quick else THOROUGH
+    all_specs, all_outs = [], []
     for sl in slices:
-        res = ctx.tlc("Numbers_MC", "Numbers_MC_%s.cfg" % sl, require_actions=ACTIONS.get(sl, ()),
-                      require_cases=100, timeout=1500)
+        res = ctx.tlc("Numbers_MC", "Numbers_MC_%s.cfg" % sl, require_cases=100, timeout=1500)
         cases = res.cases
-        if sl == "roman":
-            sel = cases
-        else:
-            sel = ctx.pick(cases, 4000 if ctx.quick else 60000)
+        classes = set(c["cls"] for c in cases)
+        for need in NEED[sl.split("_")[0]]:
+            if not any(need in c for c in classes):
+                raise core.MachineryFailure("vacuity: no case of class *%s* in slice %s" % (need, sl))
+        sel = cases if (sl == "roman" or not ctx.quick) else ctx.pick(cases, 1200)
+        # every selected case: all presentations are called and compared with the roundings TLC lists
+        # (number cases); which of the calls are additionally judged by the trace specification:
+        # everything in small selections, one presentation per case (rotating) in large ones, and
+        # for the very large number slices that for a stratified sample of the cases
+        big = len(sel) > 10000
+        traced = None
+        if big and sel and sel[0]["in"]["mode"] == "number":
+            traced = set(id(c) for c in ctx.pick(sel, 25000))
         specs, owner = [], []
         for ci, c in enumerate(sel):
-            sps = case_specs(c, ci)
-            for sp in sps:
+            for sp in case_specs(c, ci):
                 specs.append(sp)
                 owner.append(ci)
         outs = ctx.pmap(_call_safe, specs)
         ctx.cases_replayed += len(sel)
-        # spec -> code: exact comparison with the roundings TLC lists for the case
-        judged_specs, judged_outs = [], []
-        for k, (sp, o, ci) in enumerate(zip(specs, outs, owner)):
+        for sp, o, ci in zip(specs, outs, owner):
             c = sel[ci]
             if "exc" not in o and c["in"]["mode"] == "number":
+                # spec -> code: exact comparison with the roundings TLC lists for the case
                 obs = o["trace"][-1]["obs"]
                 ok = obs["lexed"] and _denoted(obs) in c["exp"]["allowed"] and (not obs["omitted"] or c["exp"]["omit_ok"])
                 if not ok:
@@ -301,14 +325,15 @@ def run(ctx):
                                   {"direction": "spec->code", "spec": _spec_key(sp), "case": c, "observed": o["txt"],
                                    "expected": {"allowed": c["exp"]["allowed"], "omit_ok": c["exp"]["omit_ok"]},
                                    "tlc_cfg": "Numbers_MC_%s.cfg" % sl})
-                # big slices: all presentations are compared with TLC's roundings above; one of them
-                # per case (rotating) is additionally judged by the trace specification
-                if len(sel) > 20000 and sp["fn"] != "plain" and sp["fn"] != KINDS[ci % len(KINDS)]:
+            if big and "exc" not in o and c["in"]["mode"] != "roman":
+                rot = ALLK[ci % len(ALLK)]
+                mine = sp["fn"] == rot or (rot == "plain" and (
+                    sp["fn"] == "uncert_plain" or (c["in"]["mode"] == "number" and c["in"]["n"] != 3 and sp["fn"] == "latex")))
+                if not mine or (traced is not None and id(c) not in traced):
                     ctx.ran(_spec_key(sp))
                     continue
-            judged_specs.append(sp)
-            judged_outs.append(o)
-        _judge(ctx, judged_specs, judged_outs)
+            all_specs.append(sp)
+            all_outs.append(o)
         if sel:
             ctx.sample({"slice": sl, "in": sel[0]["in"], "exp": {k: v for k, v in sel[0]["exp"].items() if k != "model"},
                         "printed": outs[0].get("txt")}, cap=8)
@@ -316,12 +341,13 @@ def run(ctx):
 
     # ---- code -> spec beyond the bounds: seeded 15-digit floats, precisions 1..10, uncertainties,
     # quantities in compound units
-    n = 4000 if ctx.quick else 60000
+    n = 2500 if ctx.quick else 40000
     specs = seeded_specs(ctx.rng, n)
     outs = ctx.pmap(_call_safe, specs)
-    _judge(ctx, specs, outs)
     for sp, o in list(zip(specs, outs))[:2]:
         ctx.sample({"seeded": _spec_key(sp), "printed": o.get("txt")}, cap=8)
+    # every observation (cases and seeded calls) is judged by TLC
+    _judge(ctx, all_specs + specs, all_outs + outs)
 
 
 def replay(ctx, rec):
